@@ -1,13 +1,9 @@
-"""C13 (a): real RamSession request threads + the real clean_up under the deterministic scheduler.
+"""C13: what the scheduled runners share — the logical clock the session module sees, the rebinding
+of `sessions.threading` / `RamSession.cache` / `RamSession.locks` for whole WSGI requests on scheduled
+threads (c13_wsgi.py), the contended session id of those runs.
 
-A *case* is {'kind': 'ram', 'n': 2|3, 'cache': None | [counter, exp], 'tbl': bool, 'sched': [tok…]}
-with tokens '<i>' (request thread i), 'S' (sweeper), 'K<d>' (clock + d units).  One clock unit is
-30 s of the fake `datetime` the session module sees; the session timeout is 1 minute = 2 units
-(`CpModel.SessionLock.timeout`).
-
-`run_case` executes the schedule on the real code and returns per-step snapshots in the canonical
-form printed by the Lean driver, plus what the independent oracle needs (occupancy as counted by
-the probe, saves/loads trace, lock ownership at the end, exceptions).
+One clock unit is 30 s of the fake `datetime`; the session timeout is 1 minute = 2 units
+(`CpModel.SessionLockN.timeout`).  The lock-table runner itself is c13_ramn.py.
 """
 from __future__ import annotations
 
@@ -75,270 +71,3 @@ def interesting(op):
     return op[1] is None or op[1] == SID
 
 
-# mapping (phase, pending op) -> model pc
-def thread_pc(st, phase):
-    if st.status == 'done':
-        if st.exc is not None:
-            return 'crashed'
-        return st.result
-    op = st.pending
-    k = op[0]
-    if k == 'start':
-        return 'init'
-    if phase == 'init':
-        return 'init' if k == 'cache.contains' else '?' + k
-    if phase == 'acquire':
-        return {'locks.setdefault': 'setdef', 'lock.acquire': 'acq', 'locks.get': 'chk',
-                'locks.getitem': 'chk', 'locks.contains': 'chk', 'lock.release': 'rel0'}.get(k, '?' + k)
-    if phase == 'cs':
-        return {'cache.get': 'load', 'data.write': 'write', 'cache.setitem': 'save'}.get(k, '?' + k)
-    if phase == 'release':
-        return {'cache.setitem': 'save', 'locks.getitem': 'lookup', 'locks.get': 'lookup',
-                'lock.release': 'rel'}.get(k, '?' + k)
-    return '?' + k
-
-
-SWEEP_PC = {'start': 'copy', 'sweep.start': 'copy', 'cache.copy': 'copy', 'cache.delitem': 'del', 'locks.getitem': 'get',
-            'locks.get': 'get', 'lock.acquire': 'try', 'locks.pop': 'pop', 'lock.release': 'rel',
-            'locks.iter': 'list', 'cache.contains': 'chk'}
-
-
-class RamRun:
-    def __init__(self, n, cache, tbl):
-        self.n = n
-        self.sched = S.Sched(interesting=interesting)
-        self.P = Patched(self.sched)
-        self.P.__enter__()
-        sessions = self.P.sessions
-        self.R = R = sessions.RamSession
-        self.lock_index = {}       # InstrRLock -> canonical index (order of insertion into the table)
-        self.locks_seen = []
-        if cache is not None:
-            dict.__setitem__(R.cache, SID, ({'n': cache[0]}, BASE + _dt.timedelta(seconds=UNIT * cache[1])))
-        if tbl:
-            l0 = S.InstrRLock(self.sched)
-            dict.__setitem__(R.locks, SID, l0)
-        self._index_table()
-        self.phase = {}
-        self.occ = 0
-        self.max_occ = 0
-        self.occ_events = []
-        self.version = 0
-        self.seen = {}
-        self.lost = False
-        self.saves = 0
-        self.orphan_acquire = False
-        self.errors = {}
-        self.second = False
-        self.sweeper_crashed = None
-        for i in range(n):
-            self.sched.spawn('r%d' % i, self._worker(i))
-            self.sched.step('r%d' % i)      # thread-local prologue: park in front of the first shared op
-        self.sched.spawn('S', self._sweeper)
-        self.sched.step('S')                # park in front of the first sweep
-
-    # ---- the real code the threads run -------------------------------------------------------
-    def _worker(self, i):
-        name = 'r%d' % i
-        R = self.R
-
-        def enter():
-            self.occ += 1
-            self.max_occ = max(self.max_occ, self.occ)
-            self.occ_events.append(('enter', name))
-
-        def leave():
-            self.occ -= 1
-            self.occ_events.append(('leave', name))
-
-        def body():
-            self.phase[name] = 'init'
-            s = R(id=SID, timeout=1, clean_freq=0)          # Session.__init__ (what sessions.init does)
-            if s.id != SID:
-                return 'gone'
-            real_release = s.release_lock
-
-            def release_lock():                              # probe: occupancy ends when release starts
-                if self.phase[name] in ('cs', 'release'):
-                    self.phase[name] = 'release'
-                    leave()
-                return real_release()
-            s.release_lock = release_lock
-            self.phase[name] = 'acquire'
-            s.acquire_lock()                                 # SessionTool._lock_session
-            self.phase[name] = 'cs'
-            enter()
-            v = s.get('n', 0)                                # page handler: read-modify-write
-            self.sched.yield_point(('data.write', SID))      # the handler is not atomic
-            s['n'] = v + 1
-            s.save()                                         # sessions.save -> Session.save (finally: release)
-            return 'done'
-        return body
-
-    def _sweeper(self):
-        s = self.R.__new__(self.R)
-        s.id_observers = []
-        while True:
-            # `now = self.now()` is thread-local and commutes with every other actor's step; the
-            # controller runs it together with the `cache.copy()` that follows (see docs/C13.md)
-            self.sched.yield_point(('sweep.start', None))
-            s.clean_up()
-
-    # ---- controller ----------------------------------------------------------------------------
-    def _index_table(self):
-        l = dict.get(self.R.locks, SID)
-        if l is not None and l not in self.lock_index:
-            self.lock_index[l] = len(self.locks_seen)
-            self.locks_seen.append(l)
-
-    def step(self, tok):
-        sched = self.sched
-        if tok.startswith('K'):
-            self.P.clock.units += int(tok[1:])
-            return
-        name = 'S' if tok == 'S' else 'r' + tok
-        st = sched.threads[name]
-        if name == 'S' and st.status != 'done' and st.pending[0] == 'sweep.start':
-            sched.step('S')
-        op = sched.pending(name) if sched.enabled(name) else None
-        if op is not None and name != 'S':
-            # ghost bookkeeping for the oracle, from the operation about to execute
-            if op[0] == 'cache.get':
-                self.seen[name] = self.version
-            elif op[0] == 'data.write':
-                if self.seen.get(name) != self.version:
-                    self.lost = True
-                self.version += 1
-                self.saves += 1
-            elif op[0] == 'lock.acquire' and self.phase.get(name) == 'acquire':
-                if dict.get(self.R.locks, SID) is not op[1]:
-                    self.orphan_acquire = True
-        if op is not None and name == 'S':
-            if op[0] == 'locks.iter':
-                self.second = True
-            elif op[0] == 'cache.copy':
-                self.second = False
-        sched.step(name)
-        self._index_table()
-        if st.status == 'done' and st.exc is not None and name not in self.errors:
-            self.errors[name] = type(st.exc).__name__
-            if isinstance(st.exc, (common.HarnessError, S._Abandoned)):
-                raise common.HarnessError('managed thread %s: %r' % (name, st.exc))
-
-    def snapshot(self):
-        R, sched = self.R, self.sched
-        tl = dict.get(R.locks, SID)
-        t = str(self.lock_index[tl]) if tl is not None else '-'
-        hs = []
-        for l in self.locks_seen:
-            hs.append('-' if l.owner is None else '%s.%d' % (l.owner, l.count))
-        c = dict.get(R.cache, SID)
-        if c is None:
-            cs = '-'
-        else:
-            exp = (c[1] - BASE).total_seconds() / UNIT
-            cs = '%s:%s' % (c[0].get('n'), int(exp) if exp == int(exp) else exp)
-        ps = [str(thread_pc(sched.threads['r%d' % i], self.phase.get('r%d' % i))) for i in range(self.n)]
-        sw = sched.threads['S']
-        if sw.status == 'done':
-            w = 'crashed'
-        else:
-            w = SWEEP_PC.get(sw.pending[0], '?' + sw.pending[0])
-        reqs = ['r%d' % i for i in range(self.n)]
-        unfinished = any(not sched.done(r) for r in reqs)
-        dead = unfinished and not any(sched.enabled(r) for r in reqs)
-        return 'T=%s;H=%s;C=%s;P=%s;W=%s%d;L=%d;D=%d' % (
-            t, ','.join(hs) or '-', cs, ','.join(ps), w, 2 if self.second else 1,
-            1 if self.lost else 0, 1 if dead else 0)
-
-    def finish(self, snaps=None):
-        """Let every request thread that can still run finish (no sweeper, no clock).  Returns the
-        tokens executed."""
-        extra = []
-        reqs = [str(i) for i in range(self.n)]
-        guard = 0
-        sw = self.sched.threads['S']
-        while sw.status != 'done' and sw.pending[0] != 'sweep.start':   # let the sweeper end its sweep
-            self.step('S')
-            extra.append('S')
-            if snaps is not None:
-                snaps.append(self.snapshot())
-            guard += 1
-            if guard > 40:
-                raise common.HarnessError('sweep does not terminate')
-        while True:
-            progressed = False
-            for tok in reqs:
-                name = 'r' + tok
-                while self.sched.enabled(name):
-                    self.step(tok)
-                    extra.append(tok)
-                    if snaps is not None:
-                        snaps.append(self.snapshot())
-                    progressed = True
-                    guard += 1
-                    if guard > 400:
-                        raise common.HarnessError('request threads do not terminate')
-            if not progressed:
-                break
-        return extra
-
-    def observations(self):
-        sched = self.sched
-        reqs = ['r%d' % i for i in range(self.n)]
-        held = []
-        all_locks = list(self.locks_seen)
-        for l in all_locks:
-            if l.owner is not None:
-                held.append(str(l.owner))
-        blocked = [r for r in reqs if not sched.done(r) and not sched.enabled(r)]
-        c = dict.get(self.R.cache, SID)
-        return {'max_occ': self.max_occ, 'lost': self.lost, 'saves': self.saves,
-                'errors': dict(self.errors), 'held_by': held, 'blocked': blocked,
-                'unfinished': [r for r in reqs if not sched.done(r)],
-                'results': {r: (sched.threads[r].result if sched.done(r) else None) for r in reqs},
-                'counter': (c[0].get('n') if c is not None else None),
-                'orphan_acquire': self.orphan_acquire,
-                'sweeper_error': (type(sched.threads['S'].exc).__name__
-                                  if sched.done('S') and sched.threads['S'].exc is not None else None)}
-
-    def close(self):
-        try:
-            self.sched.close()
-        finally:
-            self.P.__exit__()
-
-
-def run_case(case, finish=True):
-    """Execute one schedule.  Returns (snapshots per token, tokens actually executed incl. the
-    finishing suffix, observations)."""
-    run = RamRun(case['n'], case.get('cache'), bool(case.get('tbl')))
-    try:
-        snaps = []
-        toks = list(case['sched'])
-        for tok in toks:
-            run.step(tok)
-            snaps.append(run.snapshot())
-        if finish:
-            toks = toks + run.finish(snaps)
-        obs = run.observations()
-        obs['final'] = run.snapshot()
-        return snaps, toks, obs
-    finally:
-        run.close()
-
-
-def detect_variant():
-    """Which acquire_lock protocol does the live code implement?  Decided by behaviour: does a
-    single uncontended request consult the lock table again between acquiring and loading."""
-    run = RamRun(1, [0, 100], False)
-    try:
-        pcs = []
-        for _ in range(12):
-            pcs.append(thread_pc(run.sched.threads['r0'], run.phase.get('r0')))
-            if run.sched.done('r0'):
-                break
-            run.step('0')
-        return ('recheck' if 'chk' in pcs else 'orig'), pcs
-    finally:
-        run.close()
